@@ -27,6 +27,9 @@ static const i128 LO = -((i128) 1 << 63);
 static const i128 HI = ((i128) 1 << 64) - 1;
 static inline bool inrange (i128 x) { return x >= LO && x <= HI; }
 
+// magnitude / sign view for the multiplicative operators
+static inline u128 mag (i128 x) { return x < 0 ? (u128) -x : (u128) x; }
+
 #define BINOP_HARNESS(NAME, OP, EXACT)                                  \
   VP_HARNESS (NAME)                                                     \
   {                                                                     \
@@ -75,17 +78,47 @@ VP_HARNESS (c08_cmp)
   vp_assert ((a != b) == (A != B), "c08_cmp: !=");
 }
 
-// magnitude / sign view for the multiplicative operators
-static inline u128 mag (i128 x) { return x < 0 ? (u128) -x : (u128) x; }
 
-VP_HARNESS (c08_mul)
+#ifndef VP_W
+#define VP_W 8
+#endif
+// Operand classes for the multiplicative operators (DESIGN 6/C08): the monolithic
+// 64x64-bit query does not finish, so each harness restricts ONE quantity to
+// magnitude < 2^VP_W and leaves the other operand fully symbolic (64-bit payload x
+// signedness).  CLS: 0 = no restriction, 1 = |a| small, 2 = |b| small,
+// 3 = quotient small (|a| >> VP_W < |b|), 4 = both within 2^VP_W of a power of two
+enum { ANY, SMALL_A, SMALL_B, SMALL_Q, NEAR_POW2 };
+static inline bool near_pow2 (u128 m)
+{
+  bool r = false;
+  for (int k = 0; k <= 64; ++k)
+    {
+      u128 p = (u128) 1 << k;
+      u128 d = m > p ? m - p : p - m;
+      if (d < 4) r = true;
+    }
+  return r;
+}
+template <int CLS> static inline void
+restrict_class (i128 A, i128 B)
+{
+  const u128 lim = (u128) 1 << VP_W;
+  if (CLS == SMALL_A) vp_assume (mag (A) < lim);
+  if (CLS == SMALL_B) vp_assume (mag (B) < lim);
+  if (CLS == SMALL_Q) vp_assume ((mag (A) >> VP_W) < mag (B));
+  if (CLS == NEAR_POW2) vp_assume (near_pow2 (mag (A)) && near_pow2 (mag (B)));
+}
+
+template <int CLS> static inline void
+h_mul ()
 {
   mpz_class a = nd_mpz (), b = nd_mpz ();
   i128 A = den (a), B = den (b);
+  restrict_class<CLS> (A, B);
   bool threw = false;
   mpz_class r;
   try { r = a * b; } catch (std::domain_error &) { threw = true; }
-  u128 M = mag (A) * mag (B);         // < 2^128, no wrap
+  u128 M = (u128) (uint64_t) mag (A) * (u128) (uint64_t) mag (B);   // 64x64 -> 128, no wrap (|A|,|B| < 2^64)
   bool neg = (A < 0) != (B < 0) && M != 0;
   bool ok = neg ? M <= ((u128) 1 << 63) : M <= (u128) HI;
   vp_assert (threw == !ok, "c08_mul: error iff exact product out of range");
@@ -96,20 +129,46 @@ VP_HARNESS (c08_mul)
     }
 }
 
+
+// signed product of two values of the representable range, exact in 128 bits when
+// |x*y| < 2^127; OK is cleared otherwise
 static inline i128
-floordiv (i128 A, i128 B)
+sprod (i128 x, i128 y, bool &ok)
 {
-  u128 q = mag (A) / mag (B);
-  if ((A < 0) == (B < 0))
-    return (i128) q;
-  u128 rem = mag (A) % mag (B);
-  return -(i128) (q + (rem != 0 ? 1 : 0));
+  // 64x64->128 product; ll2c routes (u128)(u64) * (u128)(u64) through vp_mul64x64
+  u128 p = (u128) (uint64_t) mag (x) * (u128) (uint64_t) mag (y);
+  if (p >> 100)
+    ok = false;
+  i128 sp = (i128) p;
+  return ((x < 0) != (y < 0)) ? -sp : sp;
 }
 
-VP_HARNESS (c08_div)
+// Q is the floor quotient of A by B (B != 0) iff the remainder A - Q*B has the
+// divisor's sign and smaller magnitude.  No division is performed by the oracle.
+static inline bool
+is_floor_quotient (i128 A, i128 B, i128 Q)
+{
+  bool ok = true;
+  i128 D = A - sprod (Q, B, ok);
+  if (!ok)
+    return false;
+  return B > 0 ? (D >= 0 && D < B) : (D <= 0 && D > B);
+}
+
+// floor(A/B) leaves [-2^63, 2^64-1] only for B == -1 and A > 2^63 (|floor(A/B)| <= |A|
+// < 2^64, and a negative quotient below -2^63 needs |A|/|B| > 2^63, i.e. |B| == 1).
+static inline bool
+quotient_out_of_range (i128 A, i128 B)
+{
+  return B == -1 && A > ((i128) 1 << 63);
+}
+
+template <int CLS> static inline void
+h_div ()
 {
   mpz_class a = nd_mpz (), b = nd_mpz ();
   i128 A = den (a), B = den (b);
+  restrict_class<CLS> (A, B);
   bool threw = false;
   mpz_class r;
   try { r = a / b; } catch (std::domain_error &) { threw = true; }
@@ -118,16 +177,17 @@ VP_HARNESS (c08_div)
       vp_assert (threw, "c08_div: division by zero is an error");
       return;
     }
-  i128 Q = floordiv (A, B);
-  vp_assert (threw == !inrange (Q), "c08_div: error iff floor quotient out of range");
+  vp_assert (threw == quotient_out_of_range (A, B), "c08_div: error iff floor quotient out of range");
   if (!threw)
-    vp_assert (den (r) == Q, "c08_div: floor quotient");
+    vp_assert (is_floor_quotient (A, B, den (r)), "c08_div: floor quotient");
 }
 
-VP_HARNESS (c08_mod)
+template <int CLS> static inline void
+h_mod ()
 {
   mpz_class a = nd_mpz (), b = nd_mpz ();
   i128 A = den (a), B = den (b);
+  restrict_class<CLS> (A, B);
   bool threw = false;
   mpz_class r;
   try { r = a % b; } catch (std::domain_error &) { threw = true; }
@@ -136,8 +196,30 @@ VP_HARNESS (c08_mod)
       vp_assert (threw, "c08_mod: modulo by zero is an error");
       return;
     }
-  i128 R = A - B * floordiv (A, B);   // remainder with the divisor's sign; always in range
+  // the remainder with the divisor's sign has magnitude < |B|: always representable
   vp_assert (!threw, "c08_mod: remainder is always representable, no error");
-  if (!threw)
-    vp_assert (den (r) == R, "c08_mod: remainder with divisor's sign");
+  if (threw)
+    return;
+  i128 R = den (r);
+  vp_assert (B > 0 ? (R >= 0 && R < B) : (R <= 0 && R > B), "c08_mod: remainder has the divisor's sign and smaller magnitude");
+  // A - R is a multiple of B: the multiplier is the quotient (c08_div proves what a / b is)
+  if (quotient_out_of_range (A, B))
+    vp_assert (R == 0, "c08_mod: remainder by -1 is zero");
+  else
+    {
+      mpz_class q = a / b;
+      bool ok = true;
+      vp_assert (A - R == sprod (den (q), B, ok) && ok, "c08_mod: a - (a mod b) == (a div b) * b");
+    }
 }
+
+VP_HARNESS (c08_mul_any) { h_mul<ANY> (); }
+VP_HARNESS (c08_mul_smallA) { h_mul<SMALL_A> (); }
+VP_HARNESS (c08_mul_smallB) { h_mul<SMALL_B> (); }
+VP_HARNESS (c08_mul_pow2) { h_mul<NEAR_POW2> (); }
+VP_HARNESS (c08_div_any) { h_div<ANY> (); }
+VP_HARNESS (c08_div_smallB) { h_div<SMALL_B> (); }
+VP_HARNESS (c08_div_smallQ) { h_div<SMALL_Q> (); }
+VP_HARNESS (c08_mod_any) { h_mod<ANY> (); }
+VP_HARNESS (c08_mod_smallB) { h_mod<SMALL_B> (); }
+VP_HARNESS (c08_mod_smallQ) { h_mod<SMALL_Q> (); }
